@@ -23,7 +23,7 @@ ASSUMPTIONS = c01.ASSUMPTIONS + [
     "DBFS path commits are exercised by C19's machine over the fake dbutils, not here",
     "the file under the data directory is located by joining the path's segments below data_dir",
 ]
-PROBES = ["load_checked", "fresh_process_load", "file_checked", "rekeep_switched_path", "untouched_path_checked"]
+PROBES = ["two_producers_of_one_path", "load_checked", "fresh_process_load", "file_checked", "rekeep_switched_path", "untouched_path_checked"]
 
 PROFILE = {
     "feat": gen.swarm_feat,
@@ -42,7 +42,41 @@ PROFILE = {
 def gen_case(streams, tier, avoid):
     prof = dict(PROFILE)
     prof["avoid"] = avoid
-    return hist.gen_history(streams, tier, prof)
+    case = hist.gen_history(streams, tier, prof)
+    f = streams.get("faults")
+    if f.random() < 0.2:
+        _add_second_producer(case, f)
+    return case
+
+
+def _add_second_producer(case, rng):
+    """Two pipelines that keep the same path: a kept top-level function F whose body keeps /p, another entry point that
+    keeps /p from another function, then F again (served from the store): /p must follow the last evaluation."""
+    from ..pipe import gen, ir
+
+    prog = case["prog"]
+    for op in case["ops"]:
+        if op["op"] == "edit":
+            prog = gen.apply_edit(prog, op["edit"])
+    cands = [(fn, it) for fn in gen.entries(prog) if prog["funcs"][fn]["kind"] == "data"
+             for it in prog["funcs"][fn]["body"] if it["t"] == "keep" and it.get("pathform", "lit") == "lit"]
+    if not cands or "f97" in prog["funcs"]:
+        return
+    fn, it = rng.choice(cands)
+    mod = prog["mods"][-1]
+    base = case["prog"]
+    for name, kind, params in (("f97", "target", [["a0", ir.NODEFAULT]]), ("f98", "plain", [])):
+        base["funcs"][name] = {"mod": mod, "kind": kind, "params": params, "ver": 1, "ret": "tuple", "pad": 0, "body": [],
+                               "comment": 0, "end": False}
+        base["order"].append(name)
+    base["funcs"]["f98"]["body"].append({"t": "keep", "path": it["path"], "f": "f97", "args": [{"k": "lit", "v": 1}]})
+    path = it["path"]
+    case["ops"] += [{"op": "eval", "entry": fn, "style": "call"},
+                    {"op": "eval", "entry": "f98", "style": "eval"},
+                    {"op": "load", "path": path, "fresh": False, "file": True},
+                    {"op": "eval", "entry": fn, "style": "call"},
+                    {"op": "load", "path": path, "fresh": False, "file": True},
+                    {"op": "load", "path": path, "fresh": True, "file": False}]
 
 
 def run_case(case):
@@ -51,6 +85,8 @@ def run_case(case):
         w = World(case, root)
         w.run()
         res = c01.finish(w, ORACLES)
+        if "f98" in case["prog"]["funcs"]:
+            res["probes"]["two_producers_of_one_path"] = 1
         loads = [o for o in w.obs if o["op"] == "load" and o["expected"] is not None]
         if loads:
             res["probes"]["load_checked"] = len(loads)
